@@ -22,7 +22,7 @@ func init() {
 			"(5) Drain enqueues the first non-empty priority group only, groups are ordered (non-critical non-daemon, non-critical daemon, critical non-daemon, critical daemon), only needsForceDelete pods bypass tiering, and Drain's cone contains no delete/evict call; " +
 			"(6) the pod predicates IsEvictable / IsDrainable / IsWaitingEviction imply their documented literals.",
 		NotCovered: []string{"PDB enforcement by the API server", "timing between drain passes and queue reconciles", "value of pod grace periods"},
-		Rules: c10Rules,
+		Rules:      c10Rules,
 	})
 }
 
